@@ -125,6 +125,17 @@ func VerifyMerkle(block *pb.InternalBlock) error {
 		if !(bytes.Equal(merkleRoot, block.MerkleRoot)) {
 			return errors.New("merkle root is wrong, block id:" + utils.F(blockid) + ",block merkle root:" + utils.F(block.MerkleRoot) + ", make merkle root:" + utils.F(merkleRoot))
 		}
+		// the merkle tree the block carries is stored with the header and queryBlock lists the
+		// body of the stored block from its leaves; it is covered by neither id nor signature, so
+		// it must be checked here to be the tree of the body
+		if len(block.MerkleTree) != len(merkleTree) {
+			return errors.New("merkle tree is wrong, block id:" + utils.F(blockid))
+		}
+		for i, node := range merkleTree {
+			if !bytes.Equal(node, block.MerkleTree[i]) {
+				return errors.New("merkle tree is wrong, block id:" + utils.F(blockid))
+			}
+		}
 		return nil
 	} else {
 		return errors.New("can not make merkle tree , block id:" + utils.F(blockid))
